@@ -35,8 +35,12 @@ def main():
         src = os.path.dirname(d["patch"])
         out = os.path.join(V, "seeded", name)
         os.makedirs(out, exist_ok=True)
-        shutil.copy(d["patch"], os.path.join(out, "patch.diff"))
-        if d.get("demo"):
+        if os.path.exists(d["patch"]) and os.path.abspath(d["patch"]) != os.path.abspath(os.path.join(out, "patch.diff")):
+            shutil.copy(d["patch"], os.path.join(out, "patch.diff"))
+        elif not os.path.exists(os.path.join(out, "patch.diff")):
+            print("skip (patch source gone):", name)
+            continue
+        if d.get("demo") and os.path.exists(d["demo"]) and os.path.abspath(d["demo"]) != os.path.abspath(os.path.join(out, "demo.rs")):
             shutil.copy(d["demo"], os.path.join(out, "demo.rs"))
         md = ""
         mp = os.path.join(src, "MUTATIONS.md")
